@@ -806,9 +806,22 @@ func TestVerif_C03(t *testing.T) {
 		}
 	}
 	sb.WriteString("].\n")
-	sb.WriteString("(* (configuration, path, has duration field, parse error, requested ns, credential kind, authenticated-at s, t0 s, t1 s, issued, not_before s, not_after s) *)\n")
-	sb.WriteString("Definition c03_case := (nat * Z * bool * bool * Z * Z * Z * Z * Z * bool * Z * Z)%type.\n")
-	sb.WriteString("Definition c03_bad (c : c03_case) : bool :=\n  let '(cf, p, has, perr, r, ck, iat, t0, t1, issued, va, vb) := c in\n  if perr && (p <? 2) then issued else negb (window_obs_ok (nth cf configs []) limits_now (path_of p) (if has && negb perr then Some r else None) (cred_of ck iat) t0 t1 issued va vb).\n")
+	sb.WriteString("(* CA-validity table: (NotBefore s, NotAfter s) of the CA certificates installed while the case ran; entry 0 = as made at unseal *)\nDefinition cas : list (Z * Z) := [\n")
+	for i, c := range cas {
+		sep := ";"
+		if i == len(cas)-1 {
+			sep = ""
+		}
+		sb.WriteString(fmt.Sprintf(" (%s, %s)%s\n", coqZ(c.nb), coqZ(c.na), sep))
+	}
+	sb.WriteString("].\nDefinition ca_of (i : nat) : ca_validity := let '(a, b) := nth i cas (0, 0) in (a * NS, b * NS).\n")
+	sb.WriteString("(* (configuration, CA validity, path, has duration field, parse error, requested ns, credential kind, authenticated-at s, t0 s, t1 s, issued, not_before s, not_after s) *)\n")
+	sb.WriteString("Definition c03_case := (nat * nat * Z * bool * bool * Z * Z * Z * Z * Z * bool * Z * Z)%type.\n")
+	sb.WriteString("Definition c03_default_case : c03_case := (0%nat, 0%nat, 0, false, false, 0, 0, 0, 0, 0, false, 0, 0).\n")
+	sb.WriteString("Definition c03_bad (c : c03_case) : bool :=\n  let '(cf, ca, p, has, perr, r, ck, iat, t0, t1, issued, va, vb) := c in\n  if perr && (p <? 2) then issued else negb (window_obs_ok_ca (ca_of ca) (nth cf configs []) limits_now (path_of p) (if has && negb perr then Some r else None) (cred_of ck iat) t0 t1 issued va vb).\n")
+	sb.WriteString("(* the property's own predicate on the observation (Model.Lifetime obs_starts_in_future / obs_ends_too_late) *)\n")
+	sb.WriteString("Definition c03_viol_future (c : c03_case) : bool :=\n  let '(cf, ca, p, has, perr, r, ck, iat, t0, t1, issued, va, vb) := c in issued && obs_starts_in_future t1 va.\n")
+	sb.WriteString("Definition c03_viol_toolong (c : c03_case) : bool :=\n  let '(cf, ca, p, has, perr, r, ck, iat, t0, t1, issued, va, vb) := c in\n  issued && negb (obs_starts_in_future t1 va) && obs_ends_too_late limits_now (path_of p) (if has && negb perr then Some r else None) (cred_of ck iat) t1 va vb.\n")
 	// sharded: one list literal of tens of thousands of tuples overflows coqc's stack (thorough tier)
 	const c03Shard = 2000
 	var shardNames []string
@@ -826,18 +839,25 @@ func TestVerif_C03(t *testing.T) {
 			if j == end-1 {
 				sep = ""
 			}
-			sb.WriteString(fmt.Sprintf(" (%d%%nat,%s,%s,%s,%s,%s,%s,%s,%s,%s,%s,%s)%s\n", o.cfg, coqZ(int64(o.path)), coqBool(o.hasDur), coqBool(o.parseErr), coqZ(o.requested), coqZ(int64(o.credKind)), coqZ(o.iat), coqZ(o.t0), coqZ(o.t1), coqBool(o.issued), coqZ(o.va), coqZ(o.vb), sep))
+			sb.WriteString(fmt.Sprintf(" (%d%%nat,%d%%nat,%s,%s,%s,%s,%s,%s,%s,%s,%s,%s,%s)%s\n", o.cfg, o.ca, coqZ(int64(o.path)), coqBool(o.hasDur), coqBool(o.parseErr), coqZ(o.requested), coqZ(int64(o.credKind)), coqZ(o.iat), coqZ(o.t0), coqZ(o.t1), coqBool(o.issued), coqZ(o.va), coqZ(o.vb), sep))
 		}
 		sb.WriteString("].\n")
 	}
 	allCases := "(" + strings.Join(shardNames, " ++ ") + ")"
 	sb.WriteString("Definition c03_all_mismatches := Eval vm_compute in mismatches c03_bad " + allCases + ".\n")
-	sb.WriteString("Definition c03_path_of_case (i : nat) : Z := let '(_, p, _, _, _, _, _, _, _, _, _, _) := nth i " + allCases + " (0%nat, 0, false, false, 0, 0, 0, 0, 0, false, 0, 0) in p.\n")
-	sb.WriteString("Definition c03_cfg_of_case (i : nat) : nat := let '(cf, _, _, _, _, _, _, _, _, _, _, _) := nth i " + allCases + " (0%nat, 0, false, false, 0, 0, 0, 0, 0, false, 0, 0) in cf.\n")
-	sb.WriteString("Definition c03_mismatches := Eval vm_compute in filter (fun i => (c03_path_of_case i <? 2) && Nat.eqb (c03_cfg_of_case i) 0) c03_all_mismatches.\nPrint c03_mismatches.\n")
-	sb.WriteString("Definition c03_role_mismatches := Eval vm_compute in filter (fun i => (2 <=? c03_path_of_case i) && (c03_path_of_case i <? 4) && Nat.eqb (c03_cfg_of_case i) 0) c03_all_mismatches.\nPrint c03_role_mismatches.\n")
-	sb.WriteString("Definition c03_aws_mismatches := Eval vm_compute in filter (fun i => (4 <=? c03_path_of_case i) && Nat.eqb (c03_cfg_of_case i) 0) c03_all_mismatches.\nPrint c03_aws_mismatches.\n")
+	sb.WriteString("Definition c03_case_at (i : nat) : c03_case := nth i " + allCases + " c03_default_case.\n")
+	sb.WriteString("Definition c03_path_of_case (i : nat) : Z := let '(_, _, p, _, _, _, _, _, _, _, _, _, _) := c03_case_at i in p.\n")
+	sb.WriteString("Definition c03_cfg_of_case (i : nat) : nat := let '(cf, _, _, _, _, _, _, _, _, _, _, _, _) := c03_case_at i in cf.\n")
+	sb.WriteString("Definition c03_ca_of_case (i : nat) : nat := let '(_, ca, _, _, _, _, _, _, _, _, _, _, _) := c03_case_at i in ca.\n")
+	sb.WriteString("Definition c03_mismatches := Eval vm_compute in filter (fun i => (c03_path_of_case i <? 2) && Nat.eqb (c03_cfg_of_case i) 0 && Nat.eqb (c03_ca_of_case i) 0) c03_all_mismatches.\nPrint c03_mismatches.\n")
+	sb.WriteString("Definition c03_role_mismatches := Eval vm_compute in filter (fun i => (2 <=? c03_path_of_case i) && (c03_path_of_case i <? 4) && Nat.eqb (c03_cfg_of_case i) 0 && Nat.eqb (c03_ca_of_case i) 0) c03_all_mismatches.\nPrint c03_role_mismatches.\n")
+	sb.WriteString("Definition c03_aws_mismatches := Eval vm_compute in filter (fun i => (4 <=? c03_path_of_case i) && Nat.eqb (c03_cfg_of_case i) 0 && Nat.eqb (c03_ca_of_case i) 0) c03_all_mismatches.\nPrint c03_aws_mismatches.\n")
 	sb.WriteString("Definition c03_config_mismatches := Eval vm_compute in filter (fun i => negb (Nat.eqb (c03_cfg_of_case i) 0)) c03_all_mismatches.\nPrint c03_config_mismatches.\n")
+	sb.WriteString("Definition c03_ca_mismatches := Eval vm_compute in filter (fun i => negb (Nat.eqb (c03_ca_of_case i) 0)) c03_all_mismatches.\nPrint c03_ca_mismatches.\n")
+	sb.WriteString("(* mismatching cases on which the OBSERVATION violates the property (model oracle) *)\n")
+	sb.WriteString("Definition c03_violating_future := Eval vm_compute in filter (fun i => c03_viol_future (c03_case_at i)) c03_all_mismatches.\nPrint c03_violating_future.\n")
+	sb.WriteString("Definition c03_violating_toolong := Eval vm_compute in filter (fun i => c03_viol_toolong (c03_case_at i)) c03_all_mismatches.\nPrint c03_violating_toolong.\n")
+	sb.WriteString("Definition c03_ncas := Eval vm_compute in length cas.\nPrint c03_ncas.\n")
 	// (a unary numeral of the total overflows coqc's stack in the thorough tier: sum the shard lengths in N)
 	var lens []string
 	for _, n := range shardNames {
